@@ -619,9 +619,9 @@ func minOf(s []int) int {
 
 const growthSlack = 10
 
-// judgeGrowth applies (i): the low-water mark of every container over the second
-// half of the run must not exceed its low-water mark over the second quarter by
-// more than a constant.  (Low-water marks over a window rather than single
+// judgeGrowth applies (i): the low-water mark of every container over the last
+// quarter of the run must not exceed its low-water mark over the second quarter by
+// more than a constant (with the third quarter in between).  (Low-water marks over a window rather than single
 // readings: the sync committee messenger legitimately saw-tooths between 32 and
 // 101 records, the job table follows the sync period.)
 func (r *runner) judgeGrowth() {
@@ -634,13 +634,15 @@ func (r *runner) judgeGrowth() {
 		if n < 40 {
 			continue
 		}
-		T := n / 2
-		warm := T / 2 // containers with a hysteresis (messenger: 101 records) take this long to reach their steady state
-		lowT := minOf(s[warm:T])
-		low2T := minOf(s[T:])
-		if low2T > lowT+growthSlack {
-			r.add("growth:"+k, "container %s: low-water mark %d entries over epochs %d..%d of the run, %d over epochs %d..%d (size at the end %d): grows with elapsed time",
-				k, lowT, warm, T, low2T, T, n, s[n-1])
+		// low-water marks of the second, third and fourth quarter of the run
+		q := n / 4
+		q2, q3, q4 := minOf(s[q:2*q]), minOf(s[2*q:3*q]), minOf(s[3*q:])
+		// growth with elapsed time: the low-water mark rises from quarter to quarter, by more than
+		// the slack in total.  (Rising in both steps: a container that follows the sync period, like
+		// the job table, may have its trough outside one quarter, not outside two consecutive ones.)
+		if q4 > q2+growthSlack && q3 >= q2+growthSlack/4 && q4 >= q3+growthSlack/4 {
+			r.add("growth:"+k, "container %s: low-water mark %d entries over epochs %d..%d of the run, %d over epochs %d..%d, %d over epochs %d..%d (size at the end %d): grows with elapsed time",
+				k, q2, q, 2*q, q3, 2*q, 3*q, q4, 3*q, n, s[n-1])
 		}
 	}
 }
